@@ -297,11 +297,9 @@ def check_case(case):
     if n >= 2 and exact_shift:
         res2 = _call(fn, [x + k for x in xs], ws)
         t2 = _tol(xs, k)
-        if fn == "biweight_midvariance":
-            c2 = M.biweight_midvariance_candidates(xs)
-            ok = abs(res2 - res) <= t2 or _near_any(res2, c2, t2)
-        else:
-            ok = abs(res2 - res) <= t2
+        # the statement exempts the biweight midvariance from the shift / scale clauses (it switches to the MAD on exactly
+        # symmetric data, and adding a constant can break or create that exact symmetry); its value is checked by the model
+        ok = fn == "biweight_midvariance" or abs(res2 - res) <= t2
         if not ok:
             bad("shift-invariant", f"f(x) = {res!r} but f(x+k) = {res2!r} (k={k!r})")
         tied = False
